@@ -68,9 +68,10 @@ def fragmentation_rule(F, G, rep):
     rep.counts["reachable_fns"] = len(R)
 
 
-def consumed(F, fn, rname="r"):
-    """linear form of the bytes fn consumes from its stream parameter on the Ok path, and the let-environment"""
+def consumed(F, fn, rname=None):
+    """linear form of the bytes fn consumes from its stream parameter (the first parameter) on the Ok path"""
     b = F.body(fn)
+    rname = rname or b["tir"]["params"][0].get("name")
     env = {}
     bufs = {}
     total = {"": 0}
@@ -142,15 +143,31 @@ def accounting_rule(F, rep):
             if n.get("k") == "Call" and (declared(n) or "").endswith("::Ok"):
                 t = strip(n["args"][0])
                 if t.get("k") == "Tup" and len(t["elems"]) == 2:
-                    acc = linear.add(linear.lin(t["elems"][0]), {"bytes_read": 1}, -1)
+                    carried = [q.get("name") for q in b["tir"]["params"] if q.get("ty") == "usize"]
+                    acc = linear.add(linear.lin(t["elems"][0]), {carried[0] if carried else "bytes_read": 1}, -1)
         rep.ob("accounting.start", acc is not None and linear.eq(c, acc), fn, "return", "parse_game_start consumes %s bytes but adds %s" % (linear.show(c), linear.show(acc or {})),
                sample={"fn": fn, "consumed": linear.show(c), "accounted": linear.show(acc or {})})
     except linear.NonLinear as e:
         rep.cannot("accounting.start", fn, L.Unsupported({}, str(e)))
-    # parse_start threads the two counts
+    # parse_start threads the two counts: parse_payloads' count is passed to parse_game_start, whose count becomes ParseState.bytes_read
     b = F.body("io::slippi::de::parse_start")
-    txt = tir.pretty(b["tir"]["value"])
-    ok = "io::slippi::de::parse_game_start(&mut r, &payload_sizes, bytes_read, opts)?" in txt and "bytes_read: bytes_read" in txt
+    root = b["tir"]["value"]
+    first = second = None
+    for n in tir.walk(root):
+        if n.get("k") == "Let" and n["pat"].get("k") == "Tuple" and n.get("init") is not None and n["init"].get("k") == "Try":
+            c = strip(n["init"]["e"])
+            if c.get("k") == "Call" and declared(c) == "io::slippi::de::parse_payloads":
+                first = n["pat"]["pats"][0].get("id")
+            if c.get("k") == "Call" and declared(c) == "io::slippi::de::parse_game_start":
+                passed = [strip(a).get("id") for a in c["args"] if strip(a).get("k") == "Path" and strip(a).get("ty") == "usize"]
+                second = (n["pat"]["pats"][0].get("id"), passed)
+    stored = None
+    for n in tir.walk(root):
+        if n.get("k") == "Struct" and (n.get("path") or "") == "io::slippi::de::ParseState":
+            for f in n["fields"]:
+                if f["name"] == "bytes_read":
+                    stored = strip(f["e"]).get("id")
+    ok = first is not None and second is not None and first in second[1] and stored == second[0]
     rep.ob("accounting.thread", ok, "io::slippi::de::parse_start", "thread", "parse_start must pass parse_payloads' count into parse_game_start and store the result as ParseState.bytes_read")
     g = F.body("io::slippi::de::ParseState::bytes_read")
     rep.ob("accounting.getter", g is not None and tir.place(L.strip_try(g["tir"]["value"])) == "self.bytes_read", "io::slippi::de::ParseState::bytes_read", "getter", "bytes_read() must report the counter unchanged")
